@@ -456,6 +456,21 @@ func (h *hist) snapshot(quiet bool) string {
 	dial := map[string]bool{}
 	for _, a := range addrs {
 		ok := dialOK(h.real[a])
+		if _, mine := h.foreign[a]; mine && !ok {
+			// the harness itself holds a listener on this address: a refused / timed-out dial is the loaded machine
+			// (300 ms dial timeout), not the runner.  Retry with patience; if it still fails the history is not a trace
+			// of the modelled environment (seen once in a thorough run at load average 35)
+			for k := 0; k < 3 && !ok; k++ {
+				time.Sleep(50 * time.Millisecond)
+				if c, err := net.DialTimeout("tcp", h.real[a], 2*time.Second); err == nil {
+					c.Close()
+					ok = true
+				}
+			}
+			if !ok && h.envNoise == "" {
+				h.envNoise = fmt.Sprintf("dial to the harness's own listener on %s fails", a)
+			}
+		}
 		dial[a] = ok
 		b := 0
 		if ok {
